@@ -84,6 +84,41 @@ Definition C12_others_unaffected_full : Prop :=
   exists evs' s' l', run (erase (sy_issued s) P) (init_sys nw) evs' = Some (s', l')
      /\ sy_issued s' = [] /\ proj (sy_issued s) l = l'.
 
+(* Client cancel.  In every reachable state, when the server handles CANCEL(id) from a client (and the handler does
+   not raise, i.e. the task is still running or its result is still stored - the other cases are D4): the task's
+   mailbox is gone, the id is gone from its owner's set, CANCEL(root address) is appended to the channel of EVERY
+   worker, and in every continuation the mailbox never reappears - so a late RESULT is discarded
+   (C12_server_result_discarded) and never forwarded to the client. *)
+Theorem C12_client_cancel : forall P nw evs s0 l0 c id asg s1 l1,
+  run P (init_sys nw) evs = Some (s0, l0) -> step P s0 (EClient c (CCancel id) asg) = Some (s1, l1) ->
+  exists mb owner, lookup_n id (s_tasks (sy_server s0)) = Some (mb, owner)
+    /\ lookup_n mb (s_boxes (sy_server s1)) = None
+    /\ (forall ids, lookup_n owner (s_clients (sy_server s1)) = Some ids -> ~ In id ids)
+    /\ (forall k q, nth_error (sy_down s0) k = Some q -> nth_error (sy_down s1) k = Some (q ++ [MCancel (0, mb, 0)]))
+    /\ sy_issued s1 = sy_issued s0 ++ [(0, mb, 0)]
+    /\ (forall evs2 s2 l2, run P s1 evs2 = Some (s2, l2) -> lookup_n mb (s_boxes (sy_server s2)) = None).
+Proof. exact client_cancel. Qed.
+
+Theorem C12_server_result_discarded : forall nw mb slot v by_ asg s, lookup_n mb (s_boxes s) = None ->
+  sup nw (MResult (0, mb, slot) v by_) asg s = Some (s, no_out, [LSrvDiscard mb v]).
+Proof. exact sup_discards. Qed.
+
+(* Client disconnect.  Afterwards the server holds nothing of that client: no `clients` entry, no `tasks` entry naming
+   the connection, no `mailbox_to_task_dict` entry and no mailbox of any of its tasks (now and in every continuation);
+   the only CANCELs it issues are for that client's own root tasks, and each of them is in the channel of every worker. *)
+Theorem C12_client_disconnect : forall P nw evs s0 l0 c order asg s1 l1,
+  run P (init_sys nw) evs = Some (s0, l0) -> step P s0 (EClient c (CDisconnect order) asg) = Some (s1, l1) ->
+  lookup_n c (s_clients (sy_server s1)) = None
+  /\ (forall id mb, ~ In (id, (mb, c)) (s_tasks (sy_server s1)))
+  /\ (forall id mb, lookup_n id (s_tasks (sy_server s0)) = Some (mb, c) ->
+        lookup_n id (s_tasks (sy_server s1)) = None /\ lookup_n mb (s_m2t (sy_server s1)) = None
+        /\ lookup_n mb (s_boxes (sy_server s1)) = None
+        /\ forall evs2 s2 l2, run P s1 evs2 = Some (s2, l2) -> lookup_n mb (s_boxes (sy_server s2)) = None)
+  /\ (forall a, In a (sy_issued s1) -> In a (sy_issued s0)
+        \/ exists id mb, lookup_n id (s_tasks (sy_server s0)) = Some (mb, c) /\ a = (0, mb, 0))
+  /\ (forall a k q, In a (sy_issued s1) -> ~ In a (sy_issued s0) -> nth_error (sy_down s1) k = Some q -> In (MCancel a) q).
+Proof. exact client_disconnect. Qed.
+
 (* D8.  "At quiescence no worker holds anything of cancelled work" is false for the code as it is: a concrete
    10-event run of one worker + server + one client ends quiescent with a cancelled task in Worker._tasks. *)
 Theorem C12_quiescent_clean_refuted :
@@ -134,3 +169,11 @@ Example C12_partial_nonvacuous :
   no_overtake P (init_sys 2) evs = true
   /\ exists s labs, run P (init_sys 2) evs = Some (s, labs) /\ quiescent s = true /\ sy_issued s = [(1, 0, 0)].
 Proof. split. vm_compute; reflexivity. eexists. eexists. split; [vm_compute; reflexivity|]. vm_compute. auto. Qed.
+
+(* non-vacuity of the client theorems: a cancel and a disconnect that the handlers accept *)
+Example C12_client_nonvacuous :
+  exists s labs, run [[ISubmit 1; IAwait 0]; []] (init_sys 2)
+      [EClient 0 CConnect []; EClient 1 CConnect []; EClient 0 (CSubmit 0 0) [(0, [0])]; EClient 1 (CSubmit 1 0) [(1, [0])];
+       EDown 0; EStep 0; EClient 0 (CCancel 0) []; EClient 1 (CDisconnect [1]) []] = Some (s, labs)
+    /\ sy_issued s = [(0, 0, 0); (0, 1, 0)] /\ s_tasks (sy_server s) = [(0, (0, 0))] /\ s_boxes (sy_server s) = [].
+Proof. eexists. eexists. split; [vm_compute; reflexivity|]. vm_compute. auto. Qed.
